@@ -206,6 +206,46 @@ pub fn run() -> i32 {
         }
         eprintln!("bind: adversarial stream reps={}: {} symbols, payload {} bytes, output {} bytes, first expensive symbol #{} at payload offset {}, longest symbol {} input bytes", reps, p.len(), e.payload.len(), e.expect.len(), first, e.table[first - 1].0, maxsym);
     }
+    // 5. the adversarially trained end marker (longest symbol of the format): liblzma-valid, and how long it gets
+    for reps in [110usize, 230] {
+        let mut best = (0usize, 0usize);
+        for pad in 0..120usize {
+            let (p, first) = super::corpus::adversarial_marker_program(reps, pad);
+            let e = enc::encode(0, 0, 0, 1 << 20, &p);
+            assert!(e.bad.is_none(), "{:?}", e.bad);
+            let last = e.payload.len() - e.table[first - 1].0;
+            if last > best.0 {
+                best = (last, pad);
+            }
+        }
+        let (p, first) = super::corpus::adversarial_marker_program(reps, best.1);
+        if std::env::var("VERIF_DEBUG").is_ok() {
+            let mut m = enc::Model::new(0, 0, 0).with_dict(1 << 20);
+            let mut rc = enc::RcEnc::new();
+            for s in &p[..first] {
+                m.enc(&mut rc, *s);
+            }
+            let mut tot = 0.0;
+            for (name, pr0, b) in m.debug_match_path(0xFFFF_FFFF, 273) {
+                let pr = if b == 0 { pr0 as f64 / 2048.0 } else { 1.0 - pr0 as f64 / 2048.0 };
+                tot += -pr.log2();
+                eprintln!("    {:<12} prob0={:4} bit={} cost={:.2} bits", name, pr0, b, -pr.log2());
+            }
+            eprintln!("    total coded {:.1} bits + 26 direct", tot);
+        }
+        let e = enc::encode(0, 0, 0, 1 << 20, &p);
+        let file = enc::lzma_file(0, 0, 0, 1 << 20, None, &e.payload);
+        n += 1;
+        match liblzma(&file) {
+            Ok(o) if o == e.expect => {}
+            other => {
+                eprintln!("bind: liblzma disagrees on the adversarial marker stream: {:?}", other.map(|o| o.len()));
+                fails += 1;
+            }
+        }
+        eprintln!("bind: adversarial marker stream reps={} pad={}: {} symbols, payload {} bytes, output {} bytes, the marker takes the last {} payload bytes", reps, best.1, p.len(), e.payload.len(), e.expect.len(), best.0);
+        let _ = first;
+    }
     if fails > 0 {
         eprintln!("bind: {} disagreement(s) in {} objects: model not bound", fails, n);
         2
